@@ -66,6 +66,7 @@ def ws2dwcvp(y, nodata, p, llas, robust, out, lopt):
         robust_gcv = []
 
         gcv_temp = [1e15, 0]
+        y_temp = z
         for it in range(r_its):
             if it > 1:
                 lambda_range = np.array([robust_gcv[1][1]])
@@ -185,6 +186,7 @@ def _ws2dwcvp(y, w, p, llas, robust):
     robust_gcv = []
 
     gcv_temp = [1e15, 0]
+    y_temp = z
     for it in range(r_its):
         if it > 1:
             lambda_range = np.array([robust_gcv[1][1]])
